@@ -103,4 +103,10 @@ META = {
         "note": "Trusted: Lean kernel; extractor; the harness's classification of Go argument kinds into the model's Arg cases; values with panicking methods / cycles / attributes in value position are outside the model.",
         "technique": "Lean 4 (state-machine induction, encoder lemmas, regenerated decisions) + differential replay of call sequences",
     },
+    "C15": {
+        "text": "Proof: content preservation of the attribute conversion by mutual structural induction over log/slog values (groups nested, LogValuers resolved at every depth); level conversions decided on the regenerated tables for all integers; Enabled equals the regenerated gate on the namesake severity; a handled record / an admitted bridge message is one LF-terminated payload once per selected destination; the bridge strips exactly one line feed. The part of the statement about derived handlers is false of the code: proved by a witness and reported as KNOWN-FINDING C15-derived-detached. Tied to the code by the translator and a byte-exact correspondence with JSON-decoding oracles.",
+        "design_ref": "DESIGN.md §7 C15",
+        "note": "Trusted: Lean kernel; extractor; the harness's mapping of log/slog values to the model's SVal; log/slog and log package behaviour.",
+        "technique": "Lean 4 (mutual structural induction, decide on regenerated tables) + differential replay through log/slog and log",
+    },
 }
